@@ -11,17 +11,25 @@ import (
 	"fmt"
 	"net"
 	"os"
+	"path/filepath"
+	"reflect"
+	"sort"
 	"strconv"
 	"strings"
 	"sync"
 	"testing"
 	"time"
+	"unsafe"
 
 	"verifharness/vh"
 
 	"github.com/alicebob/miniredis/v2"
 	"github.com/muroq/redislock"
+	"github.com/projecteru2/core/cluster/calcium"
+	enginefactory "github.com/projecteru2/core/engine/factory"
 	"github.com/projecteru2/core/lock"
+	"github.com/projecteru2/core/lock/etcdlock"
+	resourcetypes "github.com/projecteru2/core/resource/types"
 	"github.com/projecteru2/core/store/etcdv3"
 	"github.com/projecteru2/core/store/etcdv3/embedded"
 	"github.com/projecteru2/core/store/redis"
@@ -260,9 +268,9 @@ func CoqMuts(ms []Mut) string {
 
 // Etcd is the one embedded cluster of a test and the real store on top of it.
 type Etcd struct {
-	M      *etcdv3.Mercury
-	Cli    *clientv3.Client
-	create sync.Mutex // serialises lock-object creation (lease diff)
+	M   *etcdv3.Mercury
+	Cli *clientv3.Client
+	C   *calcium.Calcium // optional: a Calcium on the same cluster / namespace (set by the test)
 
 	hbMu       sync.Mutex
 	hb         []hbSample
@@ -367,63 +375,34 @@ type EtcdRun struct {
 	pfx    string
 	Locks  []lock.DistributedLock
 	Leases []clientv3.LeaseID
+	Single bool // single-contender run: every key under the prefix belongs to contender 0
 	wch    clientv3.WatchChan
 	cancel context.CancelFunc
 }
 
-func (e *Etcd) leaseSet(ctx context.Context) (map[clientv3.LeaseID]bool, error) {
-	resp, err := e.Cli.Leases(ctx)
-	if err != nil {
-		return nil, err
-	}
-	s := map[clientv3.LeaseID]bool{}
-	for _, l := range resp.Leases {
-		s[l.ID] = true
-	}
-	return s, nil
-}
-
 // NewRun creates the lock objects sequentially through the real
-// store.CreateLock (contender index = creation order), identifies each one's
-// session lease by diffing the cluster's lease list, and starts the watch on
-// the lock prefix from the current revision.
+// store.CreateLock (contender index = creation order), reads each one's session
+// lease from the lock object (EtcdLease), and starts the watch on the lock
+// prefix from the current revision.
 func (e *Etcd) NewRun(key string, ttls []time.Duration) (*EtcdRun, error) {
 	ctx, cancel := context.WithTimeout(context.Background(), 20*time.Second)
 	defer cancel()
 	r := &EtcdRun{env: e, pfx: "/" + lockPrefix + "/" + key + "/"}
 
-	e.create.Lock()
-	prev, err := e.leaseSet(ctx)
-	if err != nil {
-		e.create.Unlock()
-		return nil, err
-	}
 	for _, ttl := range ttls {
 		lk, err := e.M.CreateLock(key, ttl)
 		if err != nil {
-			e.create.Unlock()
 			return r, err
 		}
 		r.Locks = append(r.Locks, lk)
-		cur, err := e.leaseSet(ctx)
-		if err != nil {
-			e.create.Unlock()
-			return r, err
+		// the session lease of the new lock object (leases cannot be told apart
+		// by listing them: other runs grant leases concurrently)
+		id, ok := EtcdLease(lk)
+		if !ok {
+			return r, errors.New("lock object without a session lease")
 		}
-		var fresh []clientv3.LeaseID
-		for id := range cur {
-			if !prev[id] {
-				fresh = append(fresh, id)
-			}
-		}
-		if len(fresh) != 1 {
-			e.create.Unlock()
-			return r, fmt.Errorf("lease diff: %d new leases", len(fresh))
-		}
-		r.Leases = append(r.Leases, fresh[0])
-		prev = cur
+		r.Leases = append(r.Leases, id)
 	}
-	e.create.Unlock()
 
 	resp, err := e.Cli.Get(ctx, r.pfx, clientv3.WithPrefix(), clientv3.WithCountOnly())
 	if err != nil {
@@ -503,6 +482,9 @@ func (r *EtcdRun) Finish() (muts []Mut, err error) {
 					lease = clientv3.LeaseID(v)
 				}
 				i, known := idx[lease]
+				if r.Single {
+					i, known = 0, true
+				}
 				if !known {
 					return nil, fmt.Errorf("watch: unknown lease in key %q", k)
 				}
@@ -511,6 +493,117 @@ func (r *EtcdRun) Finish() (muts []Mut, err error) {
 		}
 	}
 }
+
+// ---------------------------------------------------------------- cluster level (Calcium)
+
+// NewCalcium builds a real *calcium.Calcium (calcium.New, mock engine) on the
+// backend.  etcd: the same embedded cluster, key namespace and lock prefix as
+// NewEtcd (calcium.New with the same *testing.T reuses the cached cluster), so
+// the watch / heartbeat / cluster client of the Etcd environment apply.  redis:
+// a fresh miniredis (returned) with lock prefix "lock".
+func NewCalcium(t *testing.T, backend string, lockTimeout time.Duration) (*calcium.Calcium, *miniredis.Miniredis, error) {
+	ctx := context.Background()
+	cfg := types.Config{
+		WALFile:             filepath.Join(t.TempDir(), "wal-"+backend),
+		HAKeepaliveInterval: 16 * time.Second,
+		LockTimeout:         lockTimeout,
+		GlobalTimeout:       10 * time.Second,
+		ConnectionTimeout:   2 * time.Second,
+		MaxConcurrency:      64,
+		Etcd:                types.EtcdConfig{Prefix: etcdPrefix, LockPrefix: lockPrefix},
+	}
+	var mr *miniredis.Miniredis
+	if backend == "redis" {
+		var err error
+		if mr, err = miniredis.Run(); err != nil {
+			return nil, nil, err
+		}
+		t.Cleanup(mr.Close)
+		cfg.Store = types.Redis
+		cfg.Redis = types.RedisConfig{Addr: mr.Addr(), LockPrefix: "lock"}
+	}
+	enginefactory.InitEngineCache(ctx, cfg, nil)
+	args := os.Args
+	c, err := calcium.New(ctx, cfg, t)
+	os.Args = args
+	return c, mr, err
+}
+
+// AddPodNode puts a pod and one mock-engine node into the store.
+func AddPodNode(c *calcium.Calcium, pod, node string) error {
+	ctx, cancel := context.WithTimeout(context.Background(), 20*time.Second)
+	defer cancel()
+	if _, err := c.AddPod(ctx, pod, ""); err != nil {
+		return err
+	}
+	_, err := c.AddNode(ctx, &types.AddNodeOptions{Nodename: node, Endpoint: "mock://" + node, Podname: pod,
+		Resources: resourcetypes.Resources{"cpumem": resourcetypes.RawParams{"cpu": 8, "memory": int64(1 << 30)}}})
+	return err
+}
+
+// EtcdLease reads the session lease of an etcd lock object made inside the
+// code under test (doLock creates it at call time): the unexported field
+// `session *concurrency.Session` of *etcdlock.Mutex, through reflect + unsafe.
+func EtcdLease(lk lock.DistributedLock) (id clientv3.LeaseID, ok bool) {
+	defer func() {
+		if recover() != nil {
+			id, ok = 0, false
+		}
+	}()
+	m, isM := lk.(*etcdlock.Mutex)
+	if !isM || m == nil {
+		return 0, false
+	}
+	f := reflect.ValueOf(m).Elem().FieldByName("session")
+	if !f.IsValid() {
+		return 0, false
+	}
+	sess := *(**concurrency.Session)(unsafe.Pointer(f.UnsafeAddr()))
+	if sess == nil {
+		return 0, false
+	}
+	return sess.Lease(), true
+}
+
+// RankByLease returns, for provisional contender ids 0..n-1 with the given
+// leases, each one's rank among the run's leases (etcd lease ids grow in grant
+// order; the model creates its contenders in that order) and the leases in rank
+// order.
+func RankByLease(leases []clientv3.LeaseID) (rank []int, sorted []clientv3.LeaseID) {
+	sorted = append([]clientv3.LeaseID(nil), leases...)
+	sort.Slice(sorted, func(a, b int) bool { return sorted[a] < sorted[b] })
+	rank = make([]int, len(leases))
+	for i, l := range leases {
+		rank[i] = sort.Search(len(sorted), func(k int) bool { return sorted[k] >= l })
+	}
+	return rank, sorted
+}
+
+// Renumber renames the contenders of a log.
+func Renumber(evs []Ev, rank []int) []Ev {
+	out := make([]Ev, len(evs))
+	for k, e := range evs {
+		e.I = rank[e.I]
+		out[k] = e
+	}
+	return out
+}
+
+// LeaseUnder returns the lease of the (single) key under the prefix, read
+// through the cluster client.
+func (e *Etcd) LeaseUnder(ctx context.Context, pfx string) (clientv3.LeaseID, error) {
+	resp, err := e.Cli.Get(ctx, pfx, clientv3.WithPrefix())
+	if err != nil {
+		return 0, err
+	}
+	if len(resp.Kvs) != 1 {
+		return 0, fmt.Errorf("%d keys under %s", len(resp.Kvs), pfx)
+	}
+	return clientv3.LeaseID(resp.Kvs[0].Lease), nil
+}
+
+// Pfx is the key prefix of the run's lock.
+func (r *EtcdRun) Pfx() string { return r.pfx }
 
 // ---------------------------------------------------------------- etcd behind a bridge (partition runs)
 
